@@ -130,13 +130,14 @@ def eval_case(ctx, case):
         if case.get("only") is not None:
             S, r, texc = run_one(list(case["only"]), ans, case["net_ready"], group, args)
             vs, key = judge(S, r, texc, list(S.taken))
-            return vs, 1, {str(key): 1}, False
-        n, viols, outcomes, capped = sched.explore(ans, case["net_ready"], group, args, case["bound"], judge, cap=case.get("cap"))
+            return vs, 1, {str(key): 1}, False, 1
+        n, viols, outcomes, capped, nstates = sched.explore(ans, case["net_ready"], group, args, case["bound"], judge,
+                                                            cap=case.get("cap"), cache=bool(case.get("cache")))
     finally:
         sched.run_one = real_run_one
         sub.rm(os.path.join(ctx.base, "ok"))
         sub.rm(os.path.join(ctx.base, "bad"))
-    return viols, n, {str(k): c for k, c in outcomes.items()}, capped
+    return viols, n, {str(k): c for k, c in outcomes.items()}, capped, nstates
 
 
 def work(ctx, case):
@@ -204,28 +205,33 @@ def main(tier, seed):
     else:
         for a in A:
             for c in cmds + ["ascmhl diff (exit 0)"]:
-                cases.append({"answer": a, "net_ready": True, "cmd": c, "bound": None, "cap": 60000})
+                cases.append({"answer": a, "net_ready": True, "cmd": c, "bound": None, "cache": True, "cap": 60000})
+                cases.append({"answer": a, "net_ready": True, "cmd": c, "bound": 3})
         for c in cmds + ["ascmhl diff (exit 0)"]:
-            cases.append({"answer": "newer", "net_ready": False, "cmd": c, "bound": None, "cap": 60000})
+            cases.append({"answer": "newer", "net_ready": False, "cmd": c, "bound": None, "cache": True, "cap": 60000})
+            cases.append({"answer": "newer", "net_ready": False, "cmd": c, "bound": 3})
     # determinism of the scheduler: the same choice sequence twice gives the same observations
     ctx = eng.local_ctx()
     probe = {"answer": "newer", "net_ready": True, "cmd": cmds[0], "bound": 0, "only": [1, 0, 0, 1]}
     r1 = eval_case(ctx, dict(probe))
     r2 = eval_case(ctx, dict(probe))
-    if (r1[2], [x.key() for x in r1[0]]) != (r2[2], [x.key() for x in r2[0]]):
+    if (r1[2], [x.key() for x in r1[0]]) != (r2[2], [x.key() for x in r2[0]]):  # same schedule, same observation
         raise engine.HarnessError(f"schedule replay is not deterministic: {r1[2]} vs {r2[2]}")
     res = eng.pmap(work, cases, chunksize=1)
     execs = 0
     runs = []
-    for case, (vs, n, outcomes, capped) in zip(cases, res):
+    nstates = 0
+    for case, (vs, n, outcomes, capped, ns) in zip(cases, res):
         eng.add_viols(vs)
         execs += n
+        nstates += ns
         for k, c in outcomes.items():
             eng.outcome(k, c)
         if capped:
             eng.caps.append(f"{case['cmd']} / {case['answer']}: execution cap {case.get('cap')} hit")
         runs.append({"cmd": case["cmd"], "server": case["answer"] if case["net_ready"] else "never answers", "executions": n,
-                     "distinct_outcomes": len(outcomes)})
+                     "distinct_outcomes": len(outcomes), "abstract_states": ns, "mode": "stateful, all interleavings" if case.get("cache")
+                     else f"stateless, <= {case['bound']} preemptions"})
     for rr in runs[:: max(1, len(runs) // 5)]:
         eng.sample(rr)
     free = eng.pmap(work_free, ["hang", "slow"], chunksize=1)
@@ -235,12 +241,13 @@ def main(tier, seed):
             if overhead >= 1.5 or ex != bex or not same:
                 eng.add_viols([Viol(PROP, "free-running-stall", {"mode": mode},
                                     f"real threads, {mode} server, {group}: overhead {overhead} s, exit {ex} (command itself {bex}), stdout prefix ok {same}")])
-    cov = {"states": execs, "transitions": execs, "traces_validated_against_impl": execs, "exhaustive": not eng.caps,
+    cov = {"states": nstates, "transitions": execs, "traces_validated_against_impl": execs, "exhaustive": not eng.caps,
            "preemption_bound": 2 if tier == "quick" else "unbounded", "server_behaviours": len(A) + 1, "commands": len(cmds) + (tier != "quick"),
            "free_running_pass": free, "runs": runs,
-           "rule": "states = complete executions (schedules); every interleaving of the real Updater thread with the command and the "
+           "rule": "states = distinct abstract scheduler states met (program counters, blocked-on, virtual clock, shared attributes), "
+                   "transitions = complete executions (schedules) run on the real threads; every interleaving of the real Updater thread with the command and the "
                    "result callback at source-line granularity (plus call/return of the command, the network wait and the join as "
-                   f"blocking points) up to {'2 preemptions' if tier == 'quick' else 'any number of preemptions'}, crossed with "
+                   f"blocking points) up to {'2 preemptions (stateless)' if tier == 'quick' else 'any number of preemptions (stateful: each (abstract state, choice) pair executed once) plus a stateless pass with <= 3 preemptions'}, crossed with "
                    "16 server answers + a server that never answers (arrival of the answer is a scheduler choice, the join timeout a "
                    "virtual-clock event) and 4-5 commands (succeeding and failing, both groups); oracle: exit code and stdout of the "
                    "plain command (+ at most one trailing notice line), <= 1 s virtual blocking, no deadlock; separate free-running "
